@@ -179,6 +179,24 @@ def run(chk):
                 exp += gflat(s)
         except Exception as ex:  # the model has no failure mode for valid inputs
             exp = ["exception", repr(ex)]
+            dyn = None
+        # property oracle, independent of the Coq model (dense numpy evolution, harness/ref.py): at step k the pre controls
+        # act, the state is recorded, the post controls act, then the step is propagated.  Used where the order within a
+        # step is unambiguous (one key per step and side; mixed keys are the recorded finding of part (a)).
+        per_step = [oracle_sequences(hist, dt, start, k) for k in range(N + 1)]
+        if dyn is not None and all(same_key_only(pr) and same_key_only(po) for pr, po in per_step):
+            from harness.ref import ref_dynamics, mpo_transformed
+            pre_d = {k: product(pr, d2) for k, (pr, po) in enumerate(per_step) if pr}
+            post_d = {k: product(po, d2) for k, (pr, po) in enumerate(per_step) if po}
+            envs = [dict(mpos=[mpo_transformed(m_, p_.tin, p_.tout) for m_ in p_.mpos], caps=p_.caps) for p_ in pts if not p_.trivial]
+            want = ref_dynamics(d2, envs, pre_d, post_d, props, rho0.reshape(-1), N)
+            want = want if record_all else want[-1:]
+            chk.search_cases += 1
+            if len(dyn.states) != len(want) or any(not np.array_equal(np.array(a_).reshape(-1), np.array(b_).reshape(-1)) for a_, b_ in zip(dyn.states, want)):
+                chk.fail("control-misplaced-in-dynamics", "compute_dynamics: with this control schedule the recorded states are not 'pre controls, record, post controls, "
+                         "propagate' at every step (a control acts at another time, on another side of the measurement or of the propagation)",
+                         {"kind": "compute_dynamics+control oracle", "d": d, "N": N, "nenv": nenv, "record_all": record_all, "dt": dt, "start": start,
+                          "hist": [(k, p) for k, p, _ in hist]})
         pl = coq_list([f"({mat_lit(a)}, {mat_lit(b)})" for a, b in props])
         exprs.append(f"dyn_ctl {d2} {coq_list([p.coq(N) for p in pts])} {hist_lit(hist)} {float_lit(dt)} {float_lit(start)} "
                      f"{pl} {'true' if record_all else 'false'} {N} {vec_lit(rho0.reshape(-1))}")
